@@ -24,29 +24,7 @@ def run(ck: Checker):
         if p.label == 'SyncIter':
             continue
         # ---------------------------------------------------------------- C08-1
-        ctor = p.q_ctor
-        arg = ctor.args[0] if ctor.args else kwarg(ctor, 'maxsize')
-        probs = []
-        if arg is None:
-            probs.append(f'`{norm_text(ctor)}` has no size argument: the queue default is (practically) unbounded')
-        else:
-            lf = linear_form(arg, p.q_ctor_owner)
-            if lf is None:
-                probs.append(f'cannot express the queue size `{norm_text(arg)}` as a*{p.bound_param} + b')
-            else:
-                a, b, param, pf = lf
-                if param is None:
-                    probs.append(f'queue size is the constant {b}, independent of `{p.bound_param}`') if b != 0 else probs.append('queue size 0 means unbounded')
-                else:
-                    if param != p.bound_param:
-                        probs.append(f'queue size depends on `{param}`, not on `{p.bound_param}`')
-                    if a > 1 or b > 1:
-                        probs.append(f'queue size is {a}*{param} + {b}: look-ahead exceeds the documented bound ({p.bound_param}+3 for fifo, n+2 for buffer)')
-                    lo = param_lower_bound(pf, param)
-                    lo = max(lo if lo is not None else 1, 1)
-                    if a * lo + b < 1:
-                        probs.append(f'queue size {a}*{param} + {b} can be 0 (= unbounded) when {param} = {lo}')
-        ck.ob('C08-1', p.q_ctor_owner, ctor, not probs, '; '.join(probs) if probs else f'`{norm_text(ctor)}`: size = {lf[0]}*{lf[2]} + {lf[1]} ≥ 1')
+        check_queue_bound(ck, 'C08-1', p)
         # ---------------------------------------------------------------- C08-2
         probs = []
         sc = p.pscope
@@ -183,3 +161,30 @@ def check_private_pool(ck: Checker, rid: str):
                     break
         bad = [e for e in ds if not (isinstance(e, ast.Call) and (call_dotted(e) or '').endswith('PoolExecutor'))]
         ck.ob(rid, f, subs[0], bool(ds) and not bad, f'`{pool}` is one of {len(ds)} executors constructed by this iteration' if ds and not bad else (f'`{pool}` can be `{norm_text(bad[0])[:70]}`, which this iteration did not construct: a pool shared between streams is not bounded by this stream\'s concurrency, outlives the iteration, and deadlocks when a worker function runs a parmap on the same pool (nested parmap: every pool thread waits for an inner call that never gets a thread)' if bad else f'the origin of `{pool}` is not visible in {f.name}'))
+
+
+def check_queue_bound(ck: Checker, rid: str, p):
+    """C08-1 for one producer/consumer pair"""
+    ctor = p.q_ctor
+    arg = ctor.args[0] if ctor.args else kwarg(ctor, 'maxsize')
+    probs = []
+    if arg is None:
+        probs.append(f'`{norm_text(ctor)}` has no size argument: the queue default is (practically) unbounded')
+    else:
+        lf = linear_form(arg, p.q_ctor_owner)
+        if lf is None:
+            probs.append(f'cannot express the queue size `{norm_text(arg)}` as a*{p.bound_param} + b')
+        else:
+            a, b, param, pf = lf
+            if param is None:
+                probs.append(f'queue size is the constant {b}, independent of `{p.bound_param}`') if b != 0 else probs.append('queue size 0 means unbounded')
+            else:
+                if param != p.bound_param:
+                    probs.append(f'queue size depends on `{param}`, not on `{p.bound_param}`')
+                if a > 1 or b > 1:
+                    probs.append(f'queue size is {a}*{param} + {b}: look-ahead exceeds the documented bound ({p.bound_param}+3 for fifo, n+2 for buffer)')
+                lo = param_lower_bound(pf, param)
+                lo = max(lo if lo is not None else 1, 1)
+                if a * lo + b < 1:
+                    probs.append(f'queue size {a}*{param} + {b} can be 0 (= unbounded) when {param} = {lo}')
+    ck.ob(rid, p.q_ctor_owner, ctor, not probs, '; '.join(probs) if probs else f'`{norm_text(ctor)}`: size = {lf[0]}*{lf[2]} + {lf[1]} ≥ 1')
